@@ -138,7 +138,7 @@ def run_known_replays(ids):
     d = scratch_copy()
     try:
         env = dict(os.environ, CARGO_NET_OFFLINE='true', CARGO_TARGET_DIR=os.environ.get('VERIF_TEST_TARGET', '/tmp/verif_test_target'))
-        tests = {'D6': 'kf_d6', 'D8': 'kf_d8', 'D10': 'kf_d10', 'D11': 'kf_d11', 'D16': 'kf_d16', 'D13': 'kf_d13'}
+        tests = {'D6': 'kf_d6', 'D8': 'kf_d8', 'D10': 'kf_d10', 'D11': 'kf_d11', 'D16': 'kf_d16', 'D13': 'kf_d13', 'D12': 'kf_d12'}
         if any(i in tests for i in ids):
             shutil.copy(os.path.join(ROOT, 'replays', 'known', 'known_tests.rs'), os.path.join(d, 'src', 'tests', 'test_known_findings.rs'))
             open(os.path.join(d, 'src', 'tests', 'mod.rs'), 'a').write('\nmod test_known_findings;\n')
